@@ -28,8 +28,11 @@ def gen_case(r, idx):
                 env.append((name, "file", r.choice(ENV_VALUES)))
             elif k < 0.65:
                 env.append((name, "dir", None))
-            elif k < 0.78:
+            elif k < 0.72:
                 env.append((name, "link-file", r.choice(ENV_VALUES)))
+            elif k < 0.78:
+                # the way Kubernetes projects files: NAME -> ..data/NAME (a RELATIVE target, resolved against the env directory)
+                env.append((name, "link-rel", r.choice(ENV_VALUES)))
             elif k < 0.86:
                 env.append((name, "link-dir", None))
             elif k < 0.90:
@@ -104,6 +107,11 @@ def materialise(lay, c):
                 with open(t, "wb") as f:
                     f.write(val)
                 os.symlink(t, p)
+            elif kind == "link-rel":
+                os.makedirs(os.path.join(envdir, b"..data"), exist_ok=True)
+                with open(os.path.join(envdir, b"..data", b"t%d" % i), "wb") as f:
+                    f.write(val)
+                os.symlink(b"..data/t%d" % i, p)
             elif kind == "link-dir":
                 t = os.path.join(tgt, b"d%d" % i)
                 os.mkdir(t)
@@ -255,7 +263,7 @@ def run_case(base, c, sh):
         got = json.load(open(lay.dump))
         want_env = {}
         for n, k, v in c["env"]:
-            if k in ("file", "link-file"):
+            if k in ("file", "link-file", "link-rel"):
                 want_env[n] = v
             elif k == "link-proc":
                 want_env[n] = open("/proc/sys/kernel/ostype", "rb").read()
